@@ -1,13 +1,20 @@
 (* C17 -- the save protocols of yaml-set, yaml-merge and eyaml-rotate-keys over an
-   abstract file system, with single-fault injection.
+   abstract file system, with fault injection (one fault; a second one for the
+   restore path of yaml-set).
 
-   Code mirrored (line numbers of the repo worktree):
-     yamlpath/commands/yaml_set.py     310-322 save_to_json_file
-                                       324-354 save_to_yaml_file (incl. the
-                                               AssertionError restore path)
-                                       375-407 save_to_file, write_output_document
-     yamlpath/commands/yaml_merge.py   254-263 validateargs (--output / --overwrite)
-                                       286-359 write_output_document
+   Code mirrored (line numbers of the repo worktree, branch save3):
+     yamlpath/commands/yaml_set.py     310-323 render_json_text, save_to_json_file
+                                       325-369 save_to_yaml_file (incl. the two
+                                               restore paths: except AssertionError
+                                               -> critical(3), except Exception ->
+                                               re-raise)
+                                       390-425 write_output_document
+                                               (JSON text rendered before any file
+                                               is touched)
+     yamlpath/commands/yaml_merge.py   256-279 validateargs (--output / --overwrite / --backup)
+                                       288-348 write_output_document (the output is
+                                               rendered into a StringIO, then the
+                                               backup, then open + write)
      yamlpath/commands/eyaml_rotate_keys.py 187-198 the save of one file
 
    The file system is abstract: four roles and four content classes.  [Orig]
@@ -71,8 +78,13 @@ Inductive op :=
   | OpenRead (r : role)               (* open(path, 'rb') *)
   | CopyObj (src dst : role)          (* shutil.copyfileobj(src handle, dst handle) *)
   | OpenTrunc (r : role)              (* open(path, 'w' | 'wb'): creates or truncates *)
-  | Dump (r : role) (final : bool)    (* yaml.dump / dump_all / json.dump to the handle of r *)
-  | Dumps (r : role) (final : bool).  (* print(json.dumps(doc), file=handle of r) *)
+  | Dump (r : role) (ok : bool)       (* yaml.dump(data, handle of r) straight into the open file;
+                                         ok = false: the dumper ITSELF raises (a value it cannot
+                                         represent: TypeError, RecursionError, ...) *)
+  | Render (ok : bool)                (* serialisation into memory: json.dumps(...), or dump /
+                                         dump_all / json.dump into a StringIO; no file is touched;
+                                         ok = false: the serialiser itself raises *)
+  | WriteText (r : role).             (* handle.write(text) of the completely rendered text *)
 
 (* Normal completion of one call; None = the call itself raises (missing file). *)
 Definition exec (o : op) (s : fs) : option fs :=
@@ -84,13 +96,18 @@ Definition exec (o : op) (s : fs) : option fs :=
   | OpenRead r => if is_some (get s r) then Some s else None
   | CopyObj a b => match get s a with Some c => Some (upd s b (Some c)) | None => None end
   | OpenTrunc r => Some (upd s r (Some Partial))
-  | Dump r fin | Dumps r fin => Some (upd s r (Some (if fin then New else Partial)))
+  | Dump r ok => if ok then Some (upd s r (Some New)) else None
+  | Render ok => if ok then Some s else None
+  | WriteText r => Some (upd s r (Some New))
   end.
 
 (* A call that fails.  [Before]: it raises without effect.  [Mid]: it raises
    after the pessimistic half of its effect. *)
 Inductive fmode := Before | Mid.
-Inductive fkind := FOs | FAssert.     (* OSError | AssertionError *)
+(* The class of the exception: OSError | AssertionError | another subclass of
+   Exception (TypeError, ValueError, RecursionError, ...) | a BaseException that
+   is not an Exception (KeyboardInterrupt: the run is interrupted inside the call). *)
+Inductive fkind := FOs | FAssert | FOther | FInterrupt.
 
 Definition fault_effect (m : fmode) (o : op) (s : fs) : fs :=
   match m with
@@ -102,7 +119,8 @@ Definition fault_effect (m : fmode) (o : op) (s : fs) : fs :=
       | CopyObj a b => upd s b (Some Partial)
       | OpenTrunc r => upd s r (Some Partial)
       | Dump r _ => upd s r (Some Partial)
-      | Dumps _ _ | Exists _ | MkTmp | OpenRead _ => s
+      | WriteText r => upd s r (Some Partial)
+      | Render _ | Exists _ | MkTmp | OpenRead _ => s
       end
   end.
 
@@ -144,7 +162,7 @@ Fixpoint run_until_fault (f : option fault) (k : nat) (l : list op) (s : fs) : r
 (* The save sequences.                                                     *)
 
 (* `if exists(backup_file): remove(backup_file)`, then copy2(file, backup_file)
-   (yaml_set.py:386-392, yaml_merge.py:291-298, eyaml_rotate_keys.py:189-194).
+   (yaml_set.py:402-408, yaml_merge.py:338-345, eyaml_rotate_keys.py:189-194).
    Nothing before these calls changes the .bak, so the answer of exists() is
    the state the run started in. *)
 Definition backup_ops (s : fs) : list op :=
@@ -153,53 +171,64 @@ Definition backup_ops (s : fs) : list op :=
 Definition opt_backup (backup : bool) (s : fs) : list op :=
   if backup then backup_ops s else [].
 
-(* json.dump, or one print(json.dumps()) per document when there are several
-   (yaml_merge.py:311-336). *)
-Definition dump_ops (r : role) (json : bool) (ndocs : nat) : list op :=
+(* yaml-merge renders into a StringIO: dump / dump_all / json.dump once, or one
+   print(json.dumps()) per document when there are several JSON documents
+   (yaml_merge.py:306-333).  [ok] = false: the (first) serialisation raises. *)
+Definition render_ops (json : bool) (ndocs : nat) (ok : bool) : list op :=
   if json && Nat.ltb 1 ndocs
-  then repeat (Dumps r false) (ndocs - 1) ++ [Dumps r true]
-  else [Dump r true].
+  then Render ok :: repeat (Render true) (ndocs - 1)
+  else [Render ok].
 
 Inductive out_mode := ToStdout | ToOutput | ToOverwrite.
 
+(* [ok]: the serialiser (ruamel's dumper / json) accepts the document to be
+   written -- an input of the model (oracle); false = it raises by itself. *)
 Inductive cfg :=
-  | CSet (backup json : bool)                     (* yaml-set FILE *)
+  | CSet (backup json ok : bool)                  (* yaml-set FILE *)
   | CSetStream                                    (* yaml-set - : document to STDOUT *)
-  | CMerge (m : out_mode) (backup json : bool) (ndocs : nat)
+  | CMerge (m : out_mode) (backup json : bool) (ndocs : nat) (ok : bool)
   | CRotate (backup changed : bool).
 
-(* A plan: the straight-line calls, and what follows an AssertionError raised
-   by the guarded dump (only yaml-set's YAML save has such a handler). *)
+(* A plan: the straight-line calls, and what follows an exception raised by the
+   guarded dump (only yaml-set's YAML save has handlers: `except AssertionError`
+   and `except Exception`, both running [p_handler]). *)
 Record plan := mkplan {
   p_validate : list op;        (* calls made by validateargs *)
   p_refuse : bool;             (* validateargs found an error: exit 1 *)
   p_main : list op;
-  p_guarded : option nat;      (* index in p_main of the call inside try/except AssertionError *)
-  p_handler : list op
+  p_guarded : option nat;      (* index in p_main of the call inside try/except *)
+  p_handler : list op          (* the restore path *)
 }.
 
-Definition set_yaml_ops : list op :=
-  [MkTmp; OpenRead Target; CopyObj Target Tmp; OpenTrunc Target; Dump Target true].
+Definition set_yaml_ops (ok : bool) : list op :=
+  [MkTmp; OpenRead Target; CopyObj Target Tmp; OpenTrunc Target; Dump Target ok].
+
+(* yaml_dump.close(); tmphnd.seek(0); open(file, 'wb'); copyfileobj(tmphnd, outhnd);
+   if args.backup: remove(backup_file)        (yaml_set.py 343-350 and 360-367) *)
+Definition set_restore_ops (backup : bool) : list op :=
+  [OpenTrunc Target; CopyObj Tmp Target] ++ (if backup then [Remove Bak] else []).
 
 Definition plan_of (c : cfg) (s : fs) : plan :=
   match c with
-  | CSet backup json =>
+  | CSet backup json ok =>
       let pre := opt_backup backup s in
       if json
-      then mkplan [] false (pre ++ [OpenTrunc Target; Dump Target true]) None []
-      else mkplan [] false (pre ++ set_yaml_ops)
+      then (* write_output_document renders the JSON text first (json.dumps), then
+              the backup, then save_to_json_file: open + write *)
+           mkplan [] false (Render ok :: pre ++ [OpenTrunc Target; WriteText Target]) None []
+      else mkplan [] false (pre ++ set_yaml_ops ok)
                   (Some (length pre + 4))
-                  ([OpenTrunc Target; CopyObj Tmp Target] ++ (if backup then [Remove Bak] else []))
+                  (set_restore_ops backup)
   | CSetStream => mkplan [] false [] None []
-  | CMerge ToStdout backup json n =>
+  | CMerge ToStdout backup json n ok =>
       (* --backup without --overwrite is refused by validateargs *)
       mkplan [] backup [] None []
-  | CMerge ToOutput backup json n =>
+  | CMerge ToOutput backup json n ok =>
       mkplan [Exists Output] (is_some (get s Output) || backup)
-             (OpenTrunc Output :: dump_ops Output json n) None []
-  | CMerge ToOverwrite backup json n =>
+             (render_ops json n ok ++ [OpenTrunc Output; WriteText Output]) None []
+  | CMerge ToOverwrite backup json n ok =>
       mkplan [Exists Target] false
-             (opt_backup backup s ++ OpenTrunc Target :: dump_ops Target json n) None []
+             (render_ops json n ok ++ opt_backup backup s ++ [OpenTrunc Target; WriteText Target]) None []
   | CRotate backup changed =>
       if changed
       then mkplan [] false (opt_backup backup s ++ [OpenTrunc Target; Dump Target true]) None []
@@ -218,9 +247,31 @@ Definition drop_tmp (s : fs) : fs := upd s Tmp None.
 
 Record save_out := mkout { o_fs : fs; o_trace : list op; o_status : status }.
 
-(* Run a whole plan under at most one fault (fault positions count the calls of
-   validateargs too, as the harness does). *)
-Definition run_plan (p : plan) (f : option fault) (s : fs) : save_out :=
+(* Which `except` clause of save_to_yaml_file catches an exception of the class. *)
+Inductive clause := ByAssert | ByException | ByNobody.
+Definition caught_by (k : fkind) : clause :=
+  match k with
+  | FAssert => ByAssert                 (* except AssertionError: restore, critical(..., 3) *)
+  | FOs | FOther => ByException         (* except Exception: restore, re-raise *)
+  | FInterrupt => ByNobody              (* KeyboardInterrupt is no Exception: no restore *)
+  end.
+
+(* The class of what a stopped run raised.  A call failing by itself raises an
+   ordinary Exception (FileNotFoundError from remove/copy2/open, TypeError /
+   RecursionError from a serialiser). *)
+Definition raised (st : stop) : option fkind :=
+  match st with
+  | Completed => None
+  | Failed _ => Some FOther
+  | Injected _ k => Some k
+  end.
+
+(* Run a whole plan under a fault [f] and a second fault [f2] (fault positions
+   count every call of the run from 0, the calls of validateargs and of the
+   restore path included, as the harness does).  [f2] matters only to the
+   restore path: every other failure ends the run.  When the guarded dump failed
+   by itself, [f] has not fired and is still pending for the restore path. *)
+Definition run_plan2 (p : plan) (f f2 : option fault) (s : fs) : save_out :=
   let v := run_until_fault f 0 (p_validate p) s in
   match r_stop v with
   | Completed =>
@@ -228,30 +279,43 @@ Definition run_plan (p : plan) (f : option fault) (s : fs) : save_out :=
       else
         let nv := length (p_validate p) in
         let r := run_until_fault f nv (p_main p) (r_fs v) in
-        match r_stop r with
-        | Completed => mkout (drop_tmp (r_fs r)) (r_trace v ++ r_trace r) SOk
-        | Failed _ => mkout (drop_tmp (r_fs r)) (r_trace v ++ r_trace r) SCrash
-        | Injected _ FOs => mkout (drop_tmp (r_fs r)) (r_trace v ++ r_trace r) SCrash
-        | Injected _ FAssert =>
-            match f, p_guarded p with
-            | Some ft, Some g =>
-                if Nat.eqb (at_k ft) (nv + g)
+        let crash := mkout (drop_tmp (r_fs r)) (r_trace v ++ r_trace r) SCrash in
+        match raised (r_stop r) with
+        | None => mkout (drop_tmp (r_fs r)) (r_trace v ++ r_trace r) SOk
+        | Some kd =>
+            match p_guarded p with
+            | Some g =>
+                (* the failing call is the last one of the trace *)
+                if Nat.eqb (length (r_trace r)) (S g)
                 then
-                  (* except AssertionError: restore from the temporary copy, drop
-                     the backup, log.critical(..., 3) *)
-                  let h := run_until_fault None 0 (p_handler p) (r_fs r) in
-                  match r_stop h with
-                  | Completed => mkout (drop_tmp (r_fs h)) (r_trace v ++ r_trace r ++ r_trace h) (SExit 3)
-                  | _ => mkout (drop_tmp (r_fs h)) (r_trace v ++ r_trace r ++ r_trace h) SCrash
+                  match caught_by kd with
+                  | ByNobody => crash
+                  | cl =>
+                      let pending :=
+                        match r_stop r with
+                        | Injected _ _ => f2
+                        | _ => match f with Some _ => f | None => f2 end
+                        end in
+                      let h := run_until_fault pending (nv + S g) (p_handler p) (r_fs r) in
+                      mkout (drop_tmp (r_fs h)) (r_trace v ++ r_trace r ++ r_trace h)
+                            (match r_stop h, cl with
+                             | Completed, ByAssert => SExit 3     (* log.critical(..., 3) *)
+                             | _, _ => SCrash                     (* `raise`, or the restore path's own failure *)
+                             end)
                   end
-                else mkout (drop_tmp (r_fs r)) (r_trace v ++ r_trace r) SCrash
-            | _, _ => mkout (drop_tmp (r_fs r)) (r_trace v ++ r_trace r) SCrash
+                else crash
+            | None => crash
             end
         end
   | _ => mkout (r_fs v) (r_trace v) SCrash
   end.
 
-Definition save (c : cfg) (f : option fault) (s : fs) : save_out := run_plan (plan_of c s) f s.
+(* at most one fault *)
+Definition run_plan (p : plan) (f : option fault) (s : fs) : save_out := run_plan2 p f None s.
+
+Definition save2 (c : cfg) (f f2 : option fault) (s : fs) : save_out := run_plan2 (plan_of c s) f f2 s.
+
+Definition save (c : cfg) (f : option fault) (s : fs) : save_out := save2 c f None s.
 
 (* Start states: the target holds its original bytes (or does not exist, for a
    yaml-merge --overwrite to a new name), a .bak may be left from earlier, the
@@ -262,9 +326,18 @@ Definition init_fs (target_exists stale output_exists : bool) : fs :=
        (if output_exists then Some Orig else None)
        None.
 
+(* the serialiser accepts the document *)
+Definition cfg_dump_ok (c : cfg) : bool :=
+  match c with
+  | CSet _ _ ok => ok | CMerge _ _ _ _ ok => ok | CSetStream | CRotate _ _ => true
+  end.
+
+(* the position (counted over the whole run) of yaml-set's guarded dump *)
+Definition set_dump_pos (backup : bool) (s : fs) : nat := length (opt_backup backup s) + 4.
+
 Definition cfg_backup (c : cfg) : bool :=
   match c with
-  | CSet b _ => b | CSetStream => false | CMerge ToOverwrite b _ _ => b | CMerge _ _ _ _ => false
+  | CSet b _ _ => b | CSetStream => false | CMerge ToOverwrite b _ _ _ => b | CMerge _ _ _ _ _ => false
   | CRotate b ch => b && ch
   end.
 
@@ -278,10 +351,10 @@ Definition one_copy (s : fs) : bool := holds s Target Orig || holds s Bak Orig.
 (* Structural condition of the general lemma. *)
 Definition damages (r : role) (o : op) : bool :=
   match o with
-  | Remove x | OpenTrunc x | Dump x _ | Dumps x _ => role_eqb x r
+  | Remove x | OpenTrunc x | Dump x _ | WriteText x => role_eqb x r
   | Copy2 _ d | CopyObj _ d => role_eqb d r
   | MkTmp => role_eqb Tmp r
-  | Exists _ | OpenRead _ => false
+  | Exists _ | OpenRead _ | Render _ => false
   end.
 
 Definition spares (r : role) (l : list op) : bool := forallb (fun o => negb (damages r o)) l.
